@@ -152,7 +152,7 @@ def run(tier, seed):
     # ---- slice
     for s in ["", "a", "abcdef"] + [[1, 2, 3, 4]]:
         for off in range(-7, 8):
-            for ln in (None, 0, 1, 2, 10):
+            for ln in (None, -3, -1, 0, 1, 2, 10):
                 st, r = call("slice", s, off) if ln is None else call("slice", s, off, ln)
                 n = len(s)
                 start = off if off >= 0 else n + off
